@@ -30,6 +30,8 @@ class CallMixin:
                 return self.spec_forall(e, p, module, exists=True)
             if f.id == "implies":
                 a = self.truth(self.ev(e.args[0], p, module), p)
+                if z3.is_false(z3.simplify(a)):
+                    return VBool(True)
                 b = self.truth(self.ev(e.args[1], p, module), p)
                 return VBool(z3.Implies(a, b))
             if f.id == "ite":
@@ -157,7 +159,12 @@ class CallMixin:
         if any(d.startswith("uninterpreted") for d in decos):
             sorts = [self.sort_of_ann(a) for _, a, _ in params] + [self.sort_of_ann(fi.node.returns)]
             uf = self.func(name, *sorts)
-            return self.wrap_term(uf(*[self.term_of(a, s) for a, s in zip(args, sorts)]))
+            ts = []
+            for a, srt in zip(args, sorts):
+                if isinstance(a, VObj) and srt == Obj:
+                    a = self.reify_cached(a, p)
+                ts.append(self.term_of(a, srt))
+            return self.wrap_term(uf(*ts))
         if len(body) != 1 or not isinstance(body[0], ast.Return):
             raise Unsupported(f"spec function {name} must be a single return expression")
         expr = body[0].value
@@ -459,7 +466,9 @@ class CallMixin:
             for fname, fann, fdef in fields:
                 noinit = isinstance(fdef, ast.Call) and any(kw.arg == "init" and isinstance(kw.value, ast.Constant) and kw.value.value is False for kw in fdef.keywords)
                 if noinit:
-                    o.fields[fname] = self.field_default(fdef, ci)
+                    # init=False fields with a default are not stored on the instance: reads fall back to the class
+                    # attribute of the dynamic class (e.g. tag_number = 1 on BindResponse)
+                    continue
                 else:
                     init_fields.append((fname, fann, fdef))
             for (fname, fann, fdef), a in zip(init_fields, args):
@@ -519,8 +528,15 @@ class CallMixin:
         return bound
 
     def contract_for(self, fi, recv=None):
+        """Contract of method fi when invoked on receiver recv.  A method inherited by (or reached through super() from)
+        a different concrete class C is looked up as  module:C/Defining.method  first."""
+        rc = None
         if isinstance(recv, VObj):
-            k = f"{recv.cls.module}:{recv.cls.name}.{fi.name}"
+            rc = recv.cls
+        elif isinstance(recv, VSym) and recv.static_cls is not None:
+            rc = recv.static_cls
+        if rc is not None and fi.cls is not None and rc is not fi.cls:
+            k = f"{fi.module}:{rc.name}/{fi.cls.name}.{fi.name}"
             if k in self.contracts:
                 return self.contracts[k]
         return self.contracts.get(fi.key)
@@ -670,6 +686,13 @@ class CallMixin:
         qpost = self.spec_path(p, env, old=pre_env)
         for cl in c.ensures:
             p.pc.append(self.eval_clause(cl, qpost, fi.module))
+        cur = self.contracts.get(self.cur_contract_key_stack[-1]) if getattr(self, "cur_contract_key_stack", None) else None
+        if cur is not None and fi.name in cur.bind_calls and not p.spec:
+            p.ghost[cur.bind_calls[fi.name]] = result
+        if cur is not None and not p.spec:
+            for w in c.witness:
+                if f"{fi.name}.{w}" in cur.bind_witness:
+                    p.ghost[cur.bind_witness[f"{fi.name}.{w}"]] = env[w]
         return result
 
     exc_field_specs = {}
@@ -766,6 +789,11 @@ def _p_subset(eng, args, p):
     return VBool(z3.ForAll([x], z3.Implies(z3.Select(args[0].t, x), z3.Select(args[1].t, x))))
 
 
-SPEC_PRIMS = {"cat": _p_cat, "seq1": _p_seq1, "empty": _p_empty, "take": _p_take, "drop": _p_drop,
+def _p_ids_below(eng, args, p):
+    x = z3.Int("x!ib")
+    return VBool(z3.ForAll([x], z3.Implies(z3.Select(args[0].t, x), z3.And(x >= 1, x < eng.as_int(args[1])))))
+
+
+SPEC_PRIMS = {"ids_below": _p_ids_below, "cat": _p_cat, "seq1": _p_seq1, "empty": _p_empty, "take": _p_take, "drop": _p_drop,
               "is_bytes": _p_is_bytes, "empty_set": _p_empty_set, "set_add": _p_set_add, "set_del": _p_set_del,
               "subset": _p_subset}
